@@ -139,7 +139,7 @@ fn max_roundtrip(ctx: &mut Minimal, c: &Case, n: usize, inv_first: bool) -> Resu
     Ok((worst, evaluated, worst_at))
 }
 
-//@n {"id":"C01.N.roundtrip.lattice","props":["C01"],"tier":"quick","bound":"46 operator definitions (merc, webmerc, tmerc incl. lat_0 != 0 and southern origins, utm zones 1/32/60 N+S, btmerc/butm, lcc 1SP/2SP/N+S, laea polar N+S/equatorial/oblique, somerc, omerc variants A+B, cart on 3 ellipsoids up to 10^7 m, 5 auxiliary latitudes, helmert pipelines incl. exact and 14-parameter, molodensky full+abridged, permtide, a geo:in/out macro pipeline) x a 24x24 lattice over each documented domain x heights; forward-then-inverse and inverse-then-forward","text":"applying the operator forward and then inverse returns the original coordinate to within the stated accuracy (1e-5 m rigorous methods, 1e-3 m btmerc/omerc/molodensky/non-exact helmert/cart at 10^7 m), and the same inverse-then-forward; every lattice point inside the domain is counted; the epoch comes back bit-identical"}
+//@n {"id":"C01.N.roundtrip.lattice","props":["C01"],"tier":"quick","bound":"46 operator definitions (merc, webmerc, tmerc incl. lat_0 != 0 and southern origins, utm zones 1/32/60 N+S, btmerc/butm, lcc 1SP/2SP/N+S, laea polar N+S/equatorial/oblique, somerc, omerc variants A+B, cart on 3 ellipsoids up to 10^7 m, 5 auxiliary latitudes, helmert pipelines incl. exact and 14-parameter, molodensky full+abridged, permtide, a geo:in/out macro pipeline) x a 24x24 lattice (thorough tier: 96x96) over each documented domain x heights; forward-then-inverse and inverse-then-forward","text":"applying the operator forward and then inverse returns the original coordinate to within the stated accuracy (1e-5 m rigorous methods, 1e-3 m btmerc/omerc/molodensky/non-exact helmert/cart at 10^7 m), and the same inverse-then-forward; every lattice point inside the domain is counted; the epoch comes back bit-identical"}
 #[test]
 fn verif_native_c01_roundtrip_lattice() {
     let mut ctx = Minimal::default();
@@ -148,7 +148,8 @@ fn verif_native_c01_roundtrip_lattice() {
     let mut evaluated = 0;
     for (i, c) in cases().iter().enumerate() {
         for inv_first in [false, true] {
-            match max_roundtrip(&mut ctx, c, 24, inv_first) {
+            let dens = if std::env::var("VERIF_TIER").map(|t| t == "thorough").unwrap_or(false) { 96 } else { 24 };
+            match max_roundtrip(&mut ctx, c, dens, inv_first) {
                 Ok((worst, n, at)) => {
                     evaluated += n;
                     if !(worst <= c.tol_m) {
